@@ -96,6 +96,44 @@ def impl_decode(tlv, data):
     return {"ok": [[k[0], hx(v)] for k, v in d.items()]}
 
 
+_LOGCFG = [None]  # the logging configuration the implementation currently runs under (None = as found)
+
+
+class logging_cfg:
+    """The codec's results must not depend on how the application configured logging: run the implementation with
+    the `pyhap` (or `pyhap.tlv`) logger at DEBUG (records go to a NullHandler, nothing is printed)."""
+
+    def __init__(self, name):
+        self.name = name
+
+    def __enter__(self):
+        import logging
+
+        _LOGCFG[0] = self.name
+        if self.name is None:
+            return self
+        self.lg = logging.getLogger({"pyhap-debug": "pyhap", "tlv-debug": "pyhap.tlv"}[self.name])
+        self.old = (self.lg.level, self.lg.propagate)
+        self.h = logging.NullHandler()
+        self.lg.addHandler(self.h)
+        self.lg.setLevel(logging.DEBUG)
+        self.lg.propagate = False
+        return self
+
+    def __exit__(self, *a):
+        _LOGCFG[0] = None
+        if self.name is not None:
+            self.lg.removeHandler(self.h)
+            self.lg.setLevel(self.old[0])
+            self.lg.propagate = self.old[1]
+
+
+def _rep(d):
+    if _LOGCFG[0]:
+        d = dict(d, logging=_LOGCFG[0])
+    return d
+
+
 def oracle_encode(ctx: Ctx, tlv, items, enc: bytes):
     """Property judged on the real behaviour with the independent reference codec."""
     want = ref.encode(items)
@@ -104,7 +142,7 @@ def oracle_encode(ctx: Ctx, tlv, items, enc: bytes):
         ctx.fail(
             "C07:encode-differs-from-spec",
             f"tlv.encode of value lengths {lens} is not the TLV8 byte string (got {len(enc)} bytes, spec {len(want)})",
-            {"kind": "encode", "items": [[t, hx(v)] for t, v in items]},
+            _rep({"kind": "encode", "items": [[t, hx(v)] for t, v in items]}),
             size=sum(lens) + len(lens),
         )
         return
@@ -121,13 +159,13 @@ def oracle_encode(ctx: Ctx, tlv, items, enc: bytes):
             ctx.fail(
                 "C07:base64-path-differs",
                 f"encode(to_base64)/decode(from_base64) differ from the plain codec for value lengths {lens}",
-                {"kind": "encode", "items": [[t, hx(v)] for t, v in items]},
+                _rep({"kind": "encode", "items": [[t, hx(v)] for t, v in items]}),
             )
     if back != {"ok": merged}:
         ctx.fail(
             "C07:roundtrip-mismatch",
             f"decode(encode(items)) differs from the merged items for value lengths {lens}",
-            {"kind": "encode", "items": [[t, hx(v)] for t, v in items]},
+            _rep({"kind": "encode", "items": [[t, hx(v)] for t, v in items]}),
             size=sum(lens) + len(lens),
         )
 
@@ -139,7 +177,7 @@ def oracle_decode(ctx: Ctx, data: bytes, got):
         ctx.fail(
             "C07:decode-does-not-terminate",
             f"tlv.decode did not return within 5 s on a {len(data)}-byte input",
-            {"kind": "decode", "data": hx(data)},
+            _rep({"kind": "decode", "data": hx(data)}),
             size=len(data),
         )
         return
@@ -153,7 +191,7 @@ def oracle_decode(ctx: Ctx, data: bytes, got):
             ctx.fail(
                 "C07:wellformed-misassigned",
                 f"decode of a well-formed {len(data)}-byte input assigns bytes wrongly or fails: {str(got)[:80]}",
-                {"kind": "decode", "data": hx(data)},
+                _rep({"kind": "decode", "data": hx(data)}),
                 size=len(data),
             )
     # malformed input: any result or a raised error is acceptable (termination is what matters,
@@ -166,7 +204,8 @@ def run(ctx: Ctx):
     st.rule = (
         "encode cases: every single-item length 0..N plus multi-item lists over boundary lengths; decode cases: "
         "garbage, well-formed records, cut/extended records. A case is non-trivial if it fragments (a value > 255 "
-        "bytes), merges (a repeated type), or reaches the decoder's error/truncation branch; distinct by input bytes."
+        "bytes), merges (a repeated type), or reaches the decoder's error/truncation branch; distinct by input bytes. "
+        "A bounded subset is repeated with the pyhap / pyhap.tlv logger at DEBUG (results must not depend on logging)."
     )
     enc_cases = gen_encode_cases(ctx)
     dec_cases = gen_decode_cases(ctx)
@@ -198,6 +237,20 @@ def run(ctx: Ctx):
         st.hit("op", "decode")
         st.hit("outcome", "decode-" + ("err-" + got["err"] if "err" in got else ("wellformed" if wf else "truncating")))
 
+    # the same codec under other logging configurations (bounded: boundary lengths and every 7th case)
+    def interesting(it):
+        return any(len(v) in (0, 1, 254, 255, 256, 509, 510, 511, 765, 1020) or len(v) > 1500 for _, v in it)
+
+    for cfg in ("pyhap-debug", "tlv-debug"):
+        with logging_cfg(cfg):
+            for k, it in enumerate(enc_cases):
+                if k % 7 == 0 or (interesting(it) and k % 2 == 0):
+                    oracle_encode(ctx, tlv, it, impl_encode(tlv, it))
+                    st.hit("op", "encode@" + cfg)
+            for k, d in enumerate(dec_cases):
+                if k % 5 == 0:
+                    oracle_decode(ctx, d, impl_decode(tlv, d))
+                    st.hit("op", "decode@" + cfg)
     run_camera_usage(ctx)
     model = run_model_parallel("C07", lines)
     for ln, m, i in zip(lines, model, impl):
@@ -366,6 +419,12 @@ def search(ctx: Ctx):
             oracle_encode(ctx, tlv, it, impl_encode(tlv, it))
         for d in gen_decode_cases(ctx):
             oracle_decode(ctx, d, impl_decode(tlv, d))
+        for cfg in ("pyhap-debug", "tlv-debug"):
+            with logging_cfg(cfg):
+                for it in gen_encode_cases(ctx)[::3]:
+                    oracle_encode(ctx, tlv, it, impl_encode(tlv, it))
+                for d in gen_decode_cases(ctx)[::3]:
+                    oracle_decode(ctx, d, impl_decode(tlv, d))
     finally:
         ctx.tier = saved
 
@@ -378,16 +437,19 @@ def replay(ctx: Ctx, r):
             print("FAILS:", f.signature, f.description)
         print("verdict:", "property violated on this input" if ctx.failures else "holds on this input")
         return 1 if ctx.failures else 0
-    if r["kind"] == "encode":
-        items = [(t, bytes.fromhex(v)) for t, v in r["items"]]
-        enc = impl_encode(tlv, items)
-        oracle_encode(ctx, tlv, items, enc)
-        print("encode lengths", [len(v) for _, v in items], "->", len(enc), "bytes; spec", len(ref.encode(items)))
-    else:
-        d = bytes.fromhex(r["data"])
-        got = impl_decode(tlv, d)
-        oracle_decode(ctx, d, got)
-        print("decode ->", got)
+    with logging_cfg(r.get("logging")):
+        if r.get("logging"):
+            print("logging configuration:", r["logging"])
+        if r["kind"] == "encode":
+            items = [(t, bytes.fromhex(v)) for t, v in r["items"]]
+            enc = impl_encode(tlv, items)
+            oracle_encode(ctx, tlv, items, enc)
+            print("encode lengths", [len(v) for _, v in items], "->", len(enc), "bytes; spec", len(ref.encode(items)))
+        else:
+            d = bytes.fromhex(r["data"])
+            got = impl_decode(tlv, d)
+            oracle_decode(ctx, d, got)
+            print("decode ->", got)
     for f in ctx.failures:
         print("FAILS:", f.signature, f.description)
     print("verdict:", "property violated on this input" if ctx.failures else "holds on this input")
